@@ -276,6 +276,15 @@ var methods = []struct {
 var maxText = 900
 
 func randBytes(r *rand.Rand, clean bool) string {
+	if !clean && r.Intn(4) == 0 {
+		// adversarial: control characters in every order around short words
+		toks := []string{"\x00", "\x01", "\r", "\n", "\r\n", "a", "QUIT :x", " ", ":", "PING 1", "\x00\n", "b c"}
+		s := ""
+		for i, m := 0, 2+r.Intn(6); i < m; i++ {
+			s += toks[r.Intn(len(toks))]
+		}
+		return s
+	}
 	n := 0
 	switch r.Intn(6) {
 	case 0:
